@@ -30,6 +30,12 @@ func genReal(t *rapid.T) pipesim.Plan {
 }
 
 func genVirtual(t *rapid.T) pipesim.Plan {
+	if rapid.IntRange(0, 3).Draw(t, "retry_storm") == 0 {
+		return pipesim.GenPlan(t, pipesim.GenOpts{
+			Virtual: true, AllowBatched: true, AllowFailures: true, AllowDQ: true, AllowHold: true, AllowRefuse: true,
+			RetryStorm: true, MaxRecords: 16, MaxSources: 2,
+		})
+	}
 	return pipesim.GenPlan(t, pipesim.GenOpts{
 		Virtual: true, AllowSync: true, AllowBatched: true, AllowFailures: false, AllowDQ: false, AllowSplit: true,
 		AllowHold: true, AllowRefuse: true, AllowWaitFor: false, MaxRecords: 40, MaxSources: 3, MaxCapacity: 8,
